@@ -2216,6 +2216,15 @@ func (c *Conn) handleIncomingPacket(
 
 	r := &recordlayer.RecordLayer{}
 	if err := r.Unmarshal(prepared.buf); err != nil {
+		if prepared.header != nil && prepared.header.Epoch == 0 {
+			// An unprotected record is unauthenticated: anyone who can reach the socket can send it.
+			// Discard what cannot be parsed instead of tearing the association down.
+			// https://datatracker.ietf.org/doc/html/rfc6347#section-4.1.2.7
+			c.log.Debugf("discarded unparsable unprotected record: %v", err)
+
+			return packetOutcome{}, nil
+		}
+
 		return packetOutcome{
 			responseAlert: &alert.Alert{Level: alert.Fatal, Description: alert.DecodeError},
 		}, err
